@@ -1242,3 +1242,50 @@ Section PairForce.
     repeat split; auto. destruct Hor as [->|Hj]; [left; reflexivity|right; inversion Hj; reflexivity].
   Qed.
 End PairForce.
+
+(* ------------------------------------------------------------------ several pickers, one builder *)
+Section World.
+  Variable W : Type.
+  Variable wzero : W.
+  Variable fexpr : W -> Z -> Z -> Z.
+  Variable fsqrt : Z -> Z.
+  Notation wrun := (wrun W wzero fexpr fsqrt).
+  Notation wstep := (wstep W wzero fexpr fsqrt).
+  Notation run := (run W wzero fexpr fsqrt).
+  Notation step := (step W wzero fexpr fsqrt).
+
+  (* whatever is built later and whatever happens on other pickers, picker p sees exactly its own operations *)
+  Lemma pickers_independent xs : forall w p s,
+    nth_error w p = Some (Some s) ->
+    nth_error (wrun w xs) p = Some (Some (run s (wproj W p xs))).
+  Proof.
+    induction xs as [|x r IH]; intros w p s H; [exact H|].
+    unfold Model.wrun. cbn [fold_left]. fold (wrun (wstep w x) r).
+    destruct x as [start order|q o]; cbn [Model.wstep wproj flat_map app].
+    - apply IH. rewrite nth_error_app1; [exact H|]. eapply nth_error_lt; eauto.
+    - destruct (Nat.eqb_spec q p) as [->|N].
+      + rewrite H. cbn [app]. unfold Model.run. cbn [fold_left]. apply IH.
+        apply nth_error_set_nth_eq. eapply nth_error_lt; eauto.
+      + cbn [app]. apply IH. destruct (nth_error w q) as [[sq|]|]; try exact H.
+        rewrite nth_error_set_nth_neq by exact N. exact H.
+  Qed.
+
+  Lemma wrun_app w xs ys : wrun w (xs ++ ys) = wrun (wrun w xs) ys.
+  Proof. unfold Model.wrun. apply fold_left_app. Qed.
+
+  (* a picker owns its connections: the picker built from `order`, after ANY further world history (Builds with
+     any ready sets, operations on any picker), still returns only SubConns of `order` *)
+  Lemma picker_owns_connections w xs start order s0 ys d i id u s' sp :
+    build start order = Some s0 ->
+    nth_error (wrun w (xs ++ [WBuild W start order] ++ ys)) (List.length (wrun w xs)) = Some (Some sp) ->
+    pick fsqrt sp d = Ok (i, id, u, s') ->
+    nth_error order i = Some id /\ In id order.
+  Proof.
+    intros Hb Hn Hp. rewrite wrun_app, wrun_app in Hn.
+    set (w1 := wrun w xs) in *. 
+    assert (H1 : nth_error (wrun w1 [WBuild W start order]) (List.length w1) = Some (Some s0)).
+    { unfold Model.wrun. cbn [fold_left Model.wstep]. rewrite nth_error_app2 by lia. rewrite Nat.sub_diag, Hb. reflexivity. }
+    rewrite (pickers_independent ys _ _ _ H1) in Hn. inversion Hn; subst sp.
+    eapply pick_is_ready; eauto.
+  Qed.
+End World.
